@@ -686,13 +686,13 @@ fn shs<T: MontConfig<N>, const N: usize>(v: &[(usize, F<T, N>)]) -> String {
     v.iter().map(|(d, c)| format!("{:x}:{}", d, h(c))).collect::<Vec<_>>().join(",")
 }
 /// `desc` = the operands of the current operation sequences (printed in the tag of the `polyeq` line)
-struct PolyCx<'a> { out: &'a mut Out, pfx: String, skipped: u64, desc: String }
+struct PolyCx<'a> { out: &'a mut Out, pfx: String, skipped: std::collections::BTreeMap<String, u64>, desc: String }
 type DP<T, const N: usize> = DensePolynomial<F<T, N>>;
 type SP<T, const N: usize> = SparsePolynomial<F<T, N>>;
 
 fn d_pair<T: MontConfig<N>, const N: usize>(cx: &mut PolyCx, tag: &str, f: impl FnOnce() -> (DP<T, N>, DP<T, N>)) {
     match std::panic::catch_unwind(std::panic::AssertUnwindSafe(f)) {
-        Err(_) => cx.skipped += 1,      // the operation sequence itself panicked (C08's business)
+        Err(_) => *cx.skipped.entry(format!("d:{}", tag)).or_insert(0) += 1,      // the operation sequence itself panicked (C08's business)
         Ok((a, b)) => {
             let args = format!("{} d {} {} {}", cx.pfx, tag, shd(&a.coeffs), shd(&b.coeffs));
             cx.out.line(&format!("C19 polyeq {} d {}@{} {} {}", cx.pfx, tag, cx.desc, shd(&a.coeffs), shd(&b.coeffs)), &guarded(|| b01(a == b).to_string()));
@@ -703,7 +703,7 @@ fn d_pair<T: MontConfig<N>, const N: usize>(cx: &mut PolyCx, tag: &str, f: impl 
 }
 fn s_pair<T: MontConfig<N>, const N: usize>(cx: &mut PolyCx, tag: &str, f: impl FnOnce() -> (SP<T, N>, SP<T, N>)) {
     match std::panic::catch_unwind(std::panic::AssertUnwindSafe(f)) {
-        Err(_) => cx.skipped += 1,
+        Err(_) => *cx.skipped.entry(format!("s:{}", tag)).or_insert(0) += 1,
         Ok((a, b)) => {
             let args = format!("{} s {} {} {}", cx.pfx, tag, shs(&a.to_vec()), shs(&b.to_vec()));
             cx.out.line(&format!("C19 polyeq {} s {}@{} {} {}", cx.pfx, tag, cx.desc, shs(&a.to_vec()), shs(&b.to_vec())), &guarded(|| b01(a == b).to_string()));
@@ -760,7 +760,7 @@ fn sparse_seqs<T: MontConfig<N>, const N: usize>(cx: &mut PolyCx, s: &SP<T, N>, 
     s_pair::<T, N>(cx, "mul-zero", || (s.mul(&SP::<T, N>::zero()), SP::<T, N>::zero()));
 }
 fn poly_suite<T: MontConfig<N>, const N: usize>(out: &mut Out, rng: &mut Rng, exhaustive_len: usize, degs: &[usize], all_nz: bool, nrand: usize, fft: bool) {
-    let mut cx = PolyCx { out, pfx: format!("{:x} {}", N, hex_limbs(&T::MODULUS.0)), skipped: 0, desc: String::new() };
+    let mut cx = PolyCx { out, pfx: format!("{:x} {}", N, hex_limbs(&T::MODULUS.0)), skipped: Default::default(), desc: String::new() };
     let p0 = T::MODULUS.0[0];
     let re = |rng: &mut Rng| -> F<T, N> { if N == 1 && p0 < 1000 { F::<T, N>::from(rng.below(p0)) } else if rng.below(4) == 0 { F::<T, N>::from(rng.below(3)) } else { F::<T, N>::from_le_bytes_mod_order(&(0..8 * N + 8).map(|_| rng.next() as u8).collect::<Vec<_>>()) } };
     let rnz = |rng: &mut Rng| -> F<T, N> { loop { let x = re(rng); if !x.is_zero() { return x; } } };
@@ -805,7 +805,7 @@ fn poly_suite<T: MontConfig<N>, const N: usize>(out: &mut Out, rng: &mut Rng, ex
         let t = match it % 4 { 0 => -s.clone(), 1 => { let mut v = s.to_vec(); if let Some(l) = v.last_mut() { l.1 = -l.1; } SP::<T, N>::from_coefficients_vec(v) }, _ => mk(rng) };
         sparse_seqs::<T, N>(&mut cx, &s, &t, f);
     }
-    if cx.skipped > 0 { eprintln!("c19: {} polynomial operation sequences panicked (skipped; see C08)", cx.skipped); }
+    if !cx.skipped.is_empty() { eprintln!("c19: polynomial operation sequences that panicked (skipped; see C08): {:?}", cx.skipped); }
 }
 
 fn main() {
